@@ -1,6 +1,6 @@
 #!/bin/sh
 # usage: harness/keep_mutant.sh Cxx [name]   — archive /tmp/mut/Cxx-out as /verif/seeded/<name or Cxx>/
-pid=$1; name=${2:-$1}; src=/tmp/mut/$pid-out; dst=/verif/seeded/$name
+pid=$1; name=${2:-$1}; src=${MUTROOT:-/tmp/mut}/$pid-out; dst=/verif/seeded/$name
 mkdir -p $dst/demonstration; cp $src/patch.diff $src/meta.json $dst/
 for f in $src/*; do b=$(basename $f); case $b in patch.diff|meta.json|before*|after*|tests_*|work|*.xml|*.log|*.list|exp*.py|__pycache__) ;; *) [ -f $f ] && [ $(stat -c %s $f) -lt 600000 ] && cp $f $dst/demonstration/ ;; esac; done
 ls $dst $dst/demonstration
